@@ -340,8 +340,12 @@ def rule_chebyshev_bounds(ck, units, which=('cheb', 'sib')):
                     # `if (scale)`: the template argument is substituted, the condition is the literal true here
                     c = unwrap(n['c']) if n['k'] == 'if' else None
                     if c is not None and c['k'] == 'lit' and c.get('t') == 'bool' and n.get('t') is not None and any(x['k'] == 'ref' and x['n'] == 'dia' for x in walk(n['t'])):
-                        pm = {}
-                        out.add(json.dumps(strip_types(c02.norm_tree(f, n['t'], pm)), sort_keys=True))
+                        # the statements that APPLY the diagonal scaling: assignments (=, *=, /=) to something other than the diagonal copy that use it
+                        for st in walk(n['t']):
+                            if st['k'] == 'bin' and st['op'] in ('=', '*=', '/=') and any(x['k'] == 'ref' and x['n'] == 'dia' for x in walk(st['y'])) \
+                                    and not (unwrap(st['x'])['k'] == 'ref' and unwrap(st['x'])['n'] == 'dia'):
+                                pm = {}
+                                out.add(json.dumps(strip_types(c02.norm_tree(f, st, pm)), sort_keys=True))
                 return out
             a, b = scale_stmts(ser[0]), scale_stmts(dis[0])
             ok = bool(a) and a == b
